@@ -16,6 +16,17 @@ Theorem C17_roundtrip : forall desc data post o e a k,
 Proof. exact fasta_record. Qed.
 Print Assumptions C17_roundtrip.
 
+(* "description on one line": Fasta.WriteTo turns the line feeds of ANY
+   description into blanks, so a description with line feeds (no carriage
+   return) reads back with blanks in their place and never breaks the framing *)
+Theorem C17_roundtrip_multiline_description : forall desc data post o e a k,
+  no_byte 13 desc -> no_byte 10 data -> no_byte 13 data -> no_gt data -> stops post ->
+  exists o' e',
+    fasta_parser (mkst (fasta_format desc data ++ post) o e a k) =
+    (Ok (nl_to_space desc, data), mkst post o' e' (a + zlen (fasta_format desc data)) k).
+Proof. exact fasta_record_multiline. Qed.
+Print Assumptions C17_roundtrip_multiline_description.
+
 (* a stream of N records reads back as the same N records in order, and the
    scanner ends cleanly *)
 Theorem C17_stream : forall recs, Forall rec_ok recs ->
